@@ -43,8 +43,26 @@ def relayout(a, kind):
     return t[::2]
 
 
-def build(cls, params, via_set_params, decoys=None, **fixed):
+def numpy_scalars(params):
+    """The same values as NumPy scalars (what a parameter grid built with numpy, a DataFrame cell or
+    json -> numpy round trip hands over): True -> numpy.True_, 3 -> numpy.int64(3), 0.5 -> numpy.float64(0.5)."""
+    out = {}
+    for k, v in params.items():
+        if isinstance(v, bool):
+            out[k] = numpy.bool_(v)
+        elif isinstance(v, int):
+            out[k] = numpy.int64(v)
+        elif isinstance(v, float):
+            out[k] = numpy.float64(v)
+        else:
+            out[k] = v
+    return out
+
+
+def build(cls, params, via_set_params, decoys=None, as_numpy_scalars=False, **fixed):
     """cls(**fixed, **params) - or cls(**fixed, **decoys) followed by set_params(**params)."""
+    if as_numpy_scalars:
+        params = numpy_scalars(params)
     if not via_set_params:
         return cls(**fixed, **params)
     obj = cls(**fixed, **(decoys or {}))
